@@ -97,6 +97,14 @@ def run_shard(rec):
                     continue
                 go(cx, ('static-' + form, ename, cname), trace=(idx % 4 == 0),
                    inputs=ins if cname in ('alone', 'seq-tail', 'alt2') else ins_small)
+    # --- bounds written with different digit counts ({2,10}: the bounds arrive as text)
+    wide_inputs = ['a' * k + t for k in range(0, 14) for t in ('', 'b', ',')]
+    for m, n in [(2, 10), (9, 12), (10, 11), (0, 10), (10, None), (None, 10), (12, 12), (1, 100), (9, 10)]:
+        for cname, cx in (('alone', ('rep', ('str', 'a'), m, n)), ('seq-tail', ('seq', [('rep', ('str', 'a'), m, n), REST])),
+                          ('alt', ('alt', [('seq', [('rep', ('str', 'a'), m, n), ('str', '!')]), REST]))):
+            idx += 1
+            if rec.mine(idx):
+                go(cx, ('static-wide', 'lit', cname), inputs=wide_inputs)
     # --- separated lists, all option sets
     for o in all_sep_options():
         accepted = not (o['require_separator'] and not o['allow_trailer'])
